@@ -73,7 +73,13 @@ func RunAll(run *hlib.Run, prop string, sigPrefixes []string, n int) {
 				run.Count("other-property-oracle:" + f.Sig)
 			}
 		}
-		for _, l := range TraceLines(res) {
+		tl := TraceLines(res)
+		run.Emit(tl[0], "ok") // reset
+		bops, bans := BrokerLines(res)
+		for i := range bops {
+			run.Emit(bops[i], bans[i])
+		}
+		for _, l := range tl[1:] {
 			run.Emit(l, "ok")
 		}
 		traces++
